@@ -928,6 +928,35 @@ fn run_roundtrip(m: &Msg, obs: &mut Obs) -> CheckResult {
         );
         oracles::compare_fields(m, &decoded)?;
     }
+    // The same document as another XML writer might spell it (attribute order, quotes,
+    // white space inside tags, <x/> versus <x></x>, comments and white space between
+    // elements, character references in attribute values, time stamps with a numeric
+    // UTC offset): the parser may refuse a spelling, but what it accepts is this message.
+    if !t.tag_none {
+        if let Ok(text) = std::str::from_utf8(&xml) {
+            let h = xml.iter().fold(0xcbf2_9ce4_8422_2325u64, |h, &b| (h ^ b as u64).wrapping_mul(0x100_0000_01b3));
+            for k in 0..3u64 {
+                let Some(r) = crate::xmlrespell::respell(text, h.wrapping_add(k)) else {
+                    obs.label("respell-not-applicable");
+                    break;
+                };
+                obs.label_if(r.time_offset, "respelled-time-offset");
+                match built.decode_like(r.text.as_bytes()) {
+                    Err(_) => obs.label("respelled-refused"),
+                    Ok(d) => {
+                        obs.label("respelled-accepted");
+                        obs.label_if(r.time_offset, "respelled-time-offset-accepted");
+                        ensure_sig!(
+                            d.same(&built),
+                            "respelled-parses-differently",
+                            "{}: an equivalent spelling of the written document parses to a different message:\n{}\n--- written by the library:\n{}",
+                            t.variant, &r.text[..r.text.len().min(1500)], &text[..text.len().min(1500)]
+                        );
+                    }
+                }
+            }
+        }
+    }
     let xml2 = decoded.write();
     ensure_sig!(
         xml2 == xml,
@@ -944,6 +973,7 @@ const VARIANT_FLOORS: &[(&str, f64)] = &[
     ("8181-list-query", 0.015), ("8181-list-reply", 0.03), ("8181-delta", 0.05), ("8181-success", 0.015), ("8181-error-reply", 0.015),
     ("8183-child-request", 0.025), ("8183-parent-response", 0.025), ("8183-publisher-request", 0.025), ("8183-repository-response", 0.025),
     ("special-char", 0.25), ("list>=2", 0.1), ("empty-content", 0.02), ("tag-none", 0.02),
+    ("respelled-accepted", 0.3), ("respelled-time-offset-accepted", 0.01),
 ];
 
 pub fn property() -> Property {
